@@ -253,53 +253,60 @@ func mirrorBuild(focus string) func(w *World) {
 			mServerApp(w, l, s)
 		}
 		// the link fault
-		force := focus == "C10"
-		if force || w.T.Bool(1, 2, "link-fault") {
-			w.Go("link-fault", func() {
-				n := 1 + w.T.Choose(2, "drops")
-				for i := 0; i < n; i++ {
-					if i == 0 || w.T.Bool(1, 2, "wait-stable-before-drop") {
-						if l.awaitStable() == 0 {
-							return
-						}
-					}
-					for k := w.T.Choose(60, "drop-delay"); k > 0; k-- {
-						w.Yield("drop-delay")
-					}
-					simrt.WaitUntil("no-tree-change", func() bool { return l.treeBusy == 0 })
-					if !l.Up {
-						return
-					}
-					l.dropping = true
-					l.Up = false
-					again := w.T.Bool(2, 3, "set-up-again")
-					if !again {
-						l.Dead = true
-					}
-					a := l.S[w.T.Choose(2, "drop-first")]
-					w.Logf("fault conn.drop link gen=%d first=%s again=%v", l.Gen, a.N.Name, again)
-					w.Fault("conn.drop")
-					a.N.Disconnect(a.Other.N.Name)
-					for k := w.T.Choose(6, "drop-gap"); k > 0; k-- {
-						w.Yield("drop-gap")
-					}
-					a.Other.N.Disconnect(a.N.Name)
-					l.drops++
-					mTeardownCheck(w, l)
-					if !again {
-						l.dropping = false
-						return
-					}
-					for k := w.T.Choose(10, "restart-delay"); k > 0; k-- {
-						w.Yield("restart-delay")
-					}
-					w.Fault("conn.restart")
-					l.connect()
-					l.dropping = false
-				}
-			})
+		if focus == "C10" || w.T.Bool(1, 2, "link-fault") {
+			mLinkFault(w, l)
 		}
 	}
+}
+
+// mLinkFault starts the task that drops the link (each side removes its connection at its own
+// moment) once or twice and mostly sets it up again.
+//
+//go:norace
+func mLinkFault(w *World, l *mLink) {
+	w.Go("link-fault", func() {
+		n := 1 + w.T.Choose(2, "drops")
+		for i := 0; i < n; i++ {
+			if i == 0 || w.T.Bool(1, 2, "wait-stable-before-drop") {
+				if l.awaitStable() == 0 {
+					return
+				}
+			}
+			for k := w.T.Choose(60, "drop-delay"); k > 0; k-- {
+				w.Yield("drop-delay")
+			}
+			simrt.WaitUntil("no-tree-change", func() bool { return l.treeBusy == 0 })
+			if !l.Up {
+				return
+			}
+			l.dropping = true
+			l.Up = false
+			again := w.T.Bool(2, 3, "set-up-again")
+			if !again {
+				l.Dead = true
+			}
+			a := l.S[w.T.Choose(2, "drop-first")]
+			w.Logf("fault conn.drop link gen=%d first=%s again=%v", l.Gen, a.N.Name, again)
+			w.Fault("conn.drop")
+			a.N.Disconnect(a.Other.N.Name)
+			for k := w.T.Choose(6, "drop-gap"); k > 0; k-- {
+				w.Yield("drop-gap")
+			}
+			a.Other.N.Disconnect(a.N.Name)
+			l.drops++
+			mTeardownCheck(w, l)
+			if !again {
+				l.dropping = false
+				return
+			}
+			for k := w.T.Choose(10, "restart-delay"); k > 0; k-- {
+				w.Yield("restart-delay")
+			}
+			w.Fault("conn.restart")
+			l.connect()
+			l.dropping = false
+		}
+	})
 }
 
 // mUseCaseOp adds, changes or removes a use case of the side's entity [1].
